@@ -313,6 +313,18 @@ func checkC20(c *Ctx, r *Report) {
 			}
 			r.Check("C20-optional", where, "dereference *"+ptrPath, c.pos(ld.Pos()), guarded,
 				"dominated by the true edge of "+ptrPath+" != nil", "optional field "+ptrPath+" is dereferenced without a dominating non-nil test (nil pointer panic when the field is unset)")
+			// ... and by nothing else: the line must appear whenever the field is set
+			extra := ""
+			for _, cd := range condsAt(ld.Block()) {
+				if b, ok := cd.V.(*ssa.BinOp); ok && isNilConst(b.Y) && strings.Contains(pathOf(b.X), ".") {
+					if _, isPtr := b.X.Type().Underlying().(*types.Pointer); isPtr {
+						continue
+					}
+				}
+				extra = pathOf(cd.V)
+			}
+			r.Check("C20-optional", where, "line of "+ptrPath+" appears whenever it is set", c.pos(ld.Pos()), extra == "",
+				"the only conditions on the path are non-nil tests of optional fields", "the line is additionally conditional on "+extra+": a field that is set (e.g. to zero) can be silently omitted")
 		})
 		// C20-valid
 		type need struct {
